@@ -12,10 +12,16 @@ CFG = {'streams': [{'name': 'C08',
               'what_fails': 'lazy execution differs from the model of lazy*.rs'}],
  'rule': 'generated files with 2-5 stanzas (as C01) x permutations of their stanzas x sources; graphs compared up to renumbering; non-trivial = at '
          'least 3 stanzas and a scoped variable is used',
- 'explanation': 'Theorems (building blocks): forcing the definitions of a scoped variable is invariant under permutation (success and every '
-                'looked-up value); adding after forcing is an error; deferred edges are evaluated before deferred attributes whatever the push '
-                'order. Direct stream: every permutation on the implementation.',
- 'partial': ['lazy_perm_invariant (whole-run invariance up to graph isomorphism) is not proved; explored by the direct permutation stream'],
+ 'explanation': 'Theorems: the two mechanisms that make lazy evaluation order independent are proved order independent. (1) scoped variables: '
+                'forcing the definitions of a scoped variable is invariant under permutation (success and every looked-up value); adding after '
+                'forcing is an error. (2) deferred graph operations: deferred edges are evaluated before deferred attributes whatever the push '
+                'order; deferred_ops_any_order / deferred_attrs_fail_any_order (Proofs/EvalPerm.v): edge insertions in any order give the SAME '
+                'graph, attribute insertions in any order give the same graph up to the listing order of attribute entries, and a conflict is found '
+                'in every order; lazy_eval_any_order_partial: the evaluation phase of the lazy interpreter on deferred statements with pure values '
+                'never fails and yields that graph in every push order. Direct stream: every permutation on the implementation.',
+ 'partial': ['lazy_perm_invariant (whole-run invariance up to graph isomorphism) is not proved: the EXECUTION phase is missing (running the (stanza, '
+             'match) blocks in another order renumbers graph nodes and store locations: an equivariance argument); the evaluation-phase theorem '
+             'covers deferred statements whose values are pure (no scoped variables, no `(node)` calls). Explored by the direct permutation stream'],
  'assumptions': ['tree-sitter queries are an external: raw matches are recorded by calling QueryCursor::matches directly on the stanza queries and '
                  'on the merged file query',
                  'regex crate: modelled by Model/Regex.v on the generated sub-language (validated by stream C10rx); stdlib functions: Model/Stdlib.v '
